@@ -90,7 +90,9 @@ QUERY_EXTRA = ["%62=1&a=2", "b=1&%61=2", "utm%5Fsource=x&a=1", "utm_source=x&a=1
                # empty items (doubled, leading, trailing '&')
                "a=1&&b=2", "a=1&", "&a=1", "&", "b=2&&a=1&",
                # values that only differ by case / escaping of a filtered combination
-               "ref=%46b&a=1", "ref=Fb&a=1", "ref=fb&a=1", "REF=FB&a=1", "outputType=AMP&a=1", "outputtype=%61mp&a=1", "spref=TW", "m=1&M=0"]
+               "ref=%46b&a=1", "ref=Fb&a=1", "ref=fb&a=1", "REF=FB&a=1", "outputType=AMP&a=1", "outputtype=%61mp&a=1", "spref=TW", "m=1&M=0",
+               # items that only some domains drop
+               "v=abc&ab_channel=1&t=2", "x=1&_rdr"]
 # redirection hints (escaped targets, in the query and - where they mean nothing - in the fragment), control characters next to whitespace
 REDIRECTS = ["http://a.com/#x&url=http%3A%2F%2Fb.com%2F%3Fa%3D1%26b%3D2", "http://a.com/p?url=http%3A%2F%2Fb.com%2F%3Fa%3D1%26b%3D2#x&u=http%3A%2F%2Fc.com",
              "http://a.com/?next=%2Fp%3Fa%3D1%26b%3D2", "http://a.com/r?u=https%3A%2F%2FB.com%2F%2541%3Fq%3D%2526", "a.com/#!/x?url=http%3A%2F%2Fb.com",
@@ -105,7 +107,7 @@ REDIRECTS += ["http://a.com/?u\x01rl=http%3A%2F%2Fb.c%2F", "http://a.com/?x=1&am
               "https://amp-a-com.cdn.ampproject.org/v/./s/a.com/y", "https://amp-a-com.cdn.ampproject.org/v/s/a.com/x/../y", "\x85http://a.com/p?u=/x",
               "https://amp-a-com.cdn.ampproject.org/v/s/a.com:8080/y",
               # an escaped letter inside the '&amp;' entity, a cache marker spelled with an escaped dot inside the fragment
-              "http://a.com/?a=1&%61mp;b=2", "http://a.com/?a=1&AMP%3Bb=2", "a.com/#x%2Eampproject.org/c/b.com/y", "http://a.com/p#bc%2Emarfeel.com/b.com/y"]
+              "http://a.com/?lin%E2%84%AA=http://b.com/x", "http://a.com/?l%C4%B1nk=http://b.com/x", "http://a.com/?lin\u212a=http://b.com/x", "http://a.com/?a=1&%61mp;b=2", "http://a.com/?a=1&AMP%3Bb=2", "a.com/#x%2Eampproject.org/c/b.com/y", "http://a.com/p#bc%2Emarfeel.com/b.com/y"]
 # pairs that are easy to confuse: when they have the same canonical / normalized form they must agree on the next scheme too
 PAIRS = [("http://a.com/?%75rl=http://b.com/x", "http://a.com/?u\x01rl=http://b.com/x"), ("http://a.com/%49ndex.html", "http://a.com/%4\x019ndex.html"),
          ("http://a.com/x?Q=http://b.com", "http://b.com"), ("http://a.com/x?q=http://b.com", "http://a.com/x?Q=http://b.com"), ("a.com?ref=%46b", "a.com?ref=Fb"),
@@ -114,10 +116,19 @@ PAIRS = [("http://a.com/?%75rl=http://b.com/x", "http://a.com/?u\x01rl=http://b.
          ("https://www.youtube.com/watch?v=abcdefghijk&t=42s", "https://www.youtube.com/watch?v=abcdefghijk"),
          ("https://www.youtube.com/results?search_query=a&si=xyz", "https://www.youtube.com/results?search_query=a"),
          ("https://www.facebook.com/p?_rdr&id=1", "https://www.facebook.com/p?id=1"), ("a.com/INDEX.php/default.aspx", "a.com/INDEX.php"), ("https://a.com/", "a.com:443"), ("http://a.com:0/", "http://a.com/")]
+def _esc(ch):
+    return "".join("%%%02X" % b for b in ch.encode("utf8"))
+
+
+# letters whose lower(), upper() and casefold() disagree, or change length (sharp s, ligature fi, micro sign, long s, capital dotted I, final sigma): raw and escaped
+CASE_ODD = ["\xdf", "\ufb01", "\xb5", "\u017f", "\u0130", "\u03a3", "\u1e9e"]
+CASE_ODD_PAIRS = [(t % ch, t % _esc(ch)) for ch in CASE_ODD for t in ("http://a.com/stra%se", "http://a.com/p?q=Ma%se", "http://a.com/p?k%s=1", "http://a.com/a#!/gro%s")]
 WRAPS = [("\x08 ", ""), (" \x00", " "), ("\x1b\t", "\x7f "), ("", " \x01"), ("\x00 \x00 ", "")]
 HOSTS_EXTRA = ["fr.a.com", "fr-FR.a.com", "www.fr.a.com", "m.a.com", "amp.a.com", "amp-x.a.com", "a.co.uk", "A.COM:8080", "youtube.com", "www.facebook.com", "fr.facebook.com",
                # punycode whose decoded form starts with an irrelevant prefix (decoding and label stripping do not commute)
-               "xn--amp-caf-hya.fr", "www.xn--amp-caf-hya.fr", "XN--AMP-CAF-HYA.fr"]
+               "xn--amp-caf-hya.fr", "www.xn--amp-caf-hya.fr", "XN--AMP-CAF-HYA.fr",
+               # what is left once the 'amp-' prefix is cut is again something the earlier steps act on (a label, another prefix, a host with its own rules)
+               "amp-www.a.com", "amp-amp-a.com", "amp-youtube.com", "amp-fr.a.com"]
 
 
 def shard(job):
@@ -197,7 +208,7 @@ def main():
     jobs = [(a.tier, a.seed, urls[i:i + size]) for i in range(0, len(urls), size)]
     for part in run_sharded(shard, jobs, a.jobs):
         col.merge(part)
-    for ua, ub in PAIRS:
+    for ua, ub in PAIRS + CASE_ODD_PAIRS:
         for o in OPTSETS:
             classes = {}
             check_url(col, ua, o, classes)
